@@ -9,7 +9,6 @@ from vlib.defs import render_item
 
 ID = "C09"
 PROP_FILE = "Props/C09.v"
-THEOREMS = ["C09_mirror", "C09_from_agree", "C09_value", "C09_name_vis", "C09_derives", "C09_nonvacuous"]
 RULE = ("enums x kinds x type/const/lifetime generics and where-clauses x #[repr(int)] x explicit discriminants (also on "
         "data-carrying variants under a repr) x strum_discriminants(name(..), vis(..), derive(Hash, PartialOrd, Ord, EnumIter, "
         "EnumString, Display, VariantNames, EnumMessage, FromRepr), doc, pass-through strum(..) on the enum and on variants). Every "
